@@ -96,15 +96,17 @@ Definition fw_of (names chans : list (list N)) (e : event) : bool :=
 
 (* B's application in the harness: [echo] names return [name, args, kwargs]; [boom] names raise at once
    (also: one handler returns and another raises); [late] names raise after a yield of a generator handler *)
-Definition handler_of (echo boom late : list (list N)) (e : event) : hres :=
+Definition handler_of (echo nil gen boom late : list (list N)) (e : event) : hres :=
   if mem_str (ename e) echo then HVal (JArr [JStr (ename e); JArr (eargs e); JObj (ekwargs e)])
+  else if mem_str (ename e) nil then HVal JNull
+  else if mem_str (ename e) gen then HValLate (JArr [JStr (ename e); JArr (eargs e); JObj (ekwargs e)])
   else if mem_str (ename e) boom then HRaise false
   else if mem_str (ename e) late then HRaise true else HNone.
 
 Definition obs_proto (excl : list (list N)) (td : list (json * list N)) (tl : list (list N * option json))
-  (D : list N) (fs_n fs_c fr_n fr_c echo boom late : list (list N)) (bchan : json) (ops : list op) : T :=
+  (D : list N) (fs_n fs_c fr_n fr_c echo nil gen boom late : list (list N)) (bchan : json) (ops : list op) : T :=
   let s := exec excl (tbl_dumps td) (tbl_loads tl) D (fw_of fs_n fs_c) (fw_of fr_n fr_c)
-                (handler_of echo boom late) bchan ops in
+                (handler_of echo nil gen boom late) bchan ops in
   Tl [Tlist Tevent (b_log s); Tlist Tcall (a_calls s); Tbool (bad s);
       Tnat (length (a_buf s)); Tnat (length (b_buf s))].
 
